@@ -16,31 +16,11 @@ COMMON_ASSUME = [
     'the universal quantifier is sampled (exhaustive only where coverage.exhaustive_subspaces says so)',
 ]
 
-# ---------------------------------------------------------------------------
-# C08 sparse kernels
-# ---------------------------------------------------------------------------
-target('c08', ['harness/c08_kernels.cpp'])
-def c08_jobs(tier):
-    q = tier == 'quick'
-    js = [job('kernels-plain-t1', 'c08', 'plain', threads=1, shards=6),
-          job('kernels-asan-t1', 'c08', 'asan', threads=1, shards=8, args=['--sub', 'product_random,misc,transpose_adjoint,pointwise_exhaustive,pointwise_random,spectral_radius'] if q else []),
-          job('kernels-plain-t4', 'c08', 'plain', threads=4, args=['--sub', 'product_random,misc,transpose_adjoint,pointwise_random,spectral_radius']),
-          job('kernels-plain-t8', 'c08', 'plain', threads=8, args=['--sub', 'product_random,misc,pointwise_random,spectral_radius']),
-          job('kernels-omp-t17', 'c08', 'plain-omp', threads=17, args=['--sub', 'product_random,misc,pointwise_random,spectral_radius'], exclusive=True),
-          job('kernels-tsan-t4', 'c08', 'tsan', threads=4, args=['--sub', 'product_random,misc,transpose_adjoint,pointwise_random,spectral_radius']),
-          job('kernels-tsan-t17', 'c08', 'tsan', threads=17, args=['--sub', 'product_random,misc'], exclusive=True)]
-    if not q:
-        js += [job('kernels-plain-t2', 'c08', 'plain', threads=2, args=['--sub', 'product_random,misc,transpose_adjoint,pointwise_random,spectral_radius']),
-               job('kernels-omp-t24', 'c08', 'plain-omp', threads=24, args=['--sub', 'product_random,misc,pointwise_random,spectral_radius'], exclusive=True),
-               job('kernels-asan-t4', 'c08', 'asan', threads=4, shards=2, args=['--sub', 'product_random,misc,transpose_adjoint,pointwise_random,spectral_radius'])]
-    return js
-PROPS['C08'] = dict(
-    level='exploration', jobs=c08_jobs,
-    rule='exhaustive: all pattern pairs (n x k)(k x m) with n,k,m in 1..3 through both SpGEMM algorithms and product(); all block-row patterns for pointwise_matrix (2x4, 2x6 complete; 3x6 strided in quick, complete in thorough); random: seeded sparse rectangular matrices up to 300 rows (integer-valued => bitwise oracle, real-valued => forward bound). A case is non-trivial when the operands store at least one entry; distinct = distinct (sub-check, descriptor) hash.',
-    exhaustive_note='product_exhaustive (3x3 pattern pairs), pointwise_exhaustive',
-    min_nontrivial=dict(quick=500, thorough=3000),
-    require_obs=dict(quick=['tsan_processes'], thorough=['tsan_processes']),
-    assumptions=COMMON_ASSUME,
-    technique='dense reference-model oracle (bitwise on integer data) + CRS well-formedness monitor over exhaustive small patterns and seeded random inputs, repeated under ASan/UBSan and TSan(Archer) at 1..24 threads',
-    level_text='Every kernel named by the property is executed on an exhaustively enumerated space of small patterns and on seeded random matrices at thread counts on both sides of the 16-thread SpGEMM switch; each result is compared with a dense definition (exactly for integer data) and checked for CRS well-formedness, and the same workload runs under ASan+UBSan and ThreadSanitizer. Held means: no execution observed violated the definition; it is not a proof for unobserved inputs.',
-    level_note='trusts the harness-side dense reference and the compilers/sanitizer runtimes; thread counts above 24 and non-builtin backends are not explored')
+
+def load_all():
+    import importlib, pkgutil, os
+    d = os.path.join(os.path.dirname(os.path.abspath(__file__)), 'props')
+    for m in sorted(pkgutil.iter_modules([d]), key=lambda m: m.name):
+        importlib.import_module('framework.props.' + m.name)
+
+load_all()
